@@ -441,7 +441,16 @@ func (lexer *Lexer) CookedAndRawTemplateContents() ([]uint16, string) {
 	}
 
 	// This will return nil on failure, which will become "undefined" for the tag
+	oldLegacyOctalLoc := lexer.LegacyOctalLoc
+	lexer.LegacyOctalLoc = logger.Loc{}
 	cooked, _, _ := lexer.tryToDecodeEscapeSequences(lexer.start+1, raw, false /* reportErrors */)
+
+	// Octal escapes other than "\0" (including "\8" and "\9") are not valid in
+	// template literals, so the cooked value is "undefined" for the tag as well
+	if lexer.LegacyOctalLoc.Start > 0 {
+		cooked = nil
+	}
+	lexer.LegacyOctalLoc = oldLegacyOctalLoc
 	return cooked, raw
 }
 
